@@ -506,6 +506,47 @@ def runOld (s : St) : List Act → St
       | some s' => runOld s' as
       | none => runOld s as
 
+/-- the variant with a bounded parking list (`savePendingMsg` keeps at most `cap` messages and drops the oldest:
+the seeded change C01r7-B with cap = 100) -/
+def stepBounded (cap : Nat) (s : St) : Act → Option St
+  | .thread i =>
+      match s.thr[i]? with
+      | some t =>
+        if t.pc = .done then none
+        else if t.pc = .park then
+          some { s with parked := (if cap ≤ s.parked.length then s.parked.drop 1 else s.parked) ++ [t.m],
+                        thr := s.thr.set i { t with pc := .recheck } }
+        else some (stepTh s i t)
+      | none => none
+  | a => step s a
+
+def runBounded (cap : Nat) (s : St) : List Act → St
+  | [] => s
+  | a :: as => match stepBounded cap s a with
+      | some s' => runBounded cap s' as
+      | none => runBounded cap s as
+
+/-- three first-contact messages parked before the tree arrives, then the answer and the flush -/
+def parkThree : List Act :=
+  [.arrive 1, .arrive 2, .arrive 3, .thread 0, .thread 0, .thread 1, .thread 1, .thread 2, .thread 2,
+   .thread 0, .thread 0, .thread 0, .thread 0, .thread 1, .thread 1, .thread 2, .thread 2,
+   .respond, .flush, .thread 3, .thread 4, .thread 5]
+
+/-- negation witness: with a bound of two parked messages the first one is lost for good — arrived, not handed
+over, not parked, no thread, no flush and no request left (with the bound 100 of the seeded change the same
+happens with 101 messages: harness class park-many) -/
+theorem c01_bounded_parking_variant_loses :
+    let s := runBounded 2 {} parkThree
+    s.arrived = [1, 2, 3] ∧ s.delivered = [2, 3] ∧ s.parked = [] ∧ s.flushes = 0 ∧ s.reqs = 0 ∧
+      s.thr.all (fun t => t.pc == .done) := by
+  decide
+
+/-- the same schedule on the model of the code hands over all three -/
+example : (run {} parkThree).delivered = [1, 2, 3] ∧ Quiescent (run {} parkThree) := by
+  refine ⟨by decide, ?_⟩
+  unfold Quiescent
+  decide
+
 def strandSchedule : List Act := [.arrive 7, .thread 0, .localSet, .flush, .thread 0, .thread 0]
 
 theorem c01_old_code_strands :
